@@ -173,7 +173,7 @@ func (o *Object) ReflectToWorkingTree(rootGoitPath, path string) error {
 	if err := os.MkdirAll(filepath.Dir(filePath), os.ModePerm); err != nil {
 		return fmt.Errorf("fail to make directory for %s: %w", filePath, err)
 	}
-	f, err := os.Create(filePath)
+	f, err := fsutil.CreateWorkingFile(filePath)
 	if err != nil {
 		return fmt.Errorf("fail to create file %s: %w", filePath, err)
 	}
